@@ -41,6 +41,7 @@ func runC04Net(o *opts) (*summary, error) {
 
 	var mu sync.Mutex
 	var next []byte // what the controller answers with
+	copies := 1     // ... and how many times over
 	reply := func() []byte {
 		mu.Lock()
 		defer mu.Unlock()
@@ -58,7 +59,12 @@ func runC04Net(o *opts) (*summary, error) {
 			if err != nil {
 				return
 			}
-			c.WriteToUDP(reply(), src)
+			mu.Lock()
+			k := copies
+			mu.Unlock()
+			for i := 0; i < k; i++ {
+				c.WriteToUDP(reply(), src)
+			}
 		}
 	}
 	go serveU(udp)
@@ -201,6 +207,32 @@ func runC04Net(o *opts) (*summary, error) {
 					w.put(M{"fn": "fuzz", "type": fmt.Sprintf("driver-%s-debug=%v", p.name, debug), "dir": "net", "cls": cls, "len": ln, "n": reps, "panics": panics, "first": first},
 						"net-"+cls, fmt.Sprintf("%s/%v/%s/%d", p.name, debug, cls, ln))
 				}
+			}
+		}
+		// windows full of datagrams: 60 x 2048 bytes, 1200 x 64 bytes, 300 x 1 byte answer one discovery / one broadcast-to
+		// call (whatever the driver keeps per datagram or per window must hold them)
+		for _, bulk := range []struct{ n, ln int }{{60, 2048}, {1200, 64}, {300, 1}} {
+			for _, p := range []string{"discovery", "bcast"} {
+				mu.Lock()
+				next, copies = content("header+random", bulk.ln, serialB+1, map[string]byte{"discovery": 0x94, "bcast": 0x20}[p]), bulk.n
+				mu.Unlock()
+				pn, msg := guard(func() {
+					if p == "discovery" {
+						u.GetDevices()
+					} else {
+						u.GetStatus(serialB)
+					}
+				})
+				first := M{"t": "none"}
+				if pn {
+					first = M{"t": "panic", "entry": []string{p, msg}, "b": []int{bulk.n, bulk.ln}}
+				}
+				w.put(M{"fn": "fuzz", "type": fmt.Sprintf("driver-%s-bulk-debug=%v", p, debug), "dir": "net", "cls": "bulk", "len": bulk.ln, "n": bulk.n, "panics": map[bool]int{true: 1, false: 0}[pn], "first": first},
+					"net-bulk", fmt.Sprintf("%s/%v/bulk/%d", p, debug, bulk.ln))
+				mu.Lock()
+				copies = 1
+				mu.Unlock()
+				time.Sleep(30 * time.Millisecond) // the tail of the burst goes to a closed port
 			}
 		}
 		if !debug {
